@@ -1,7 +1,29 @@
 (* C15 — durations, instants and metadata round-trip through their XML text forms *)
-From Saml Require Import Base DurationModel DurationProofs.
+From Saml Require Import Base DurationModel DurationProofs TimeModel TimeProofs.
 
+(* Every Duration marshals to text that unmarshals to the identical duration:
+   for every int64 value, including 0 (the nil text) and MinInt64. *)
 Theorem duration_roundtrip :
   forall d, in_int64 d -> dur_unmarshal (dur_marshal d) = Ok d.
 Proof. exact dur_roundtrip. Qed.
 Print Assumptions duration_roundtrip.
+
+Theorem dur_marshal_zero_iff : forall d, dur_marshal d = None <-> d = 0.
+Proof. exact dur_marshal_none_iff. Qed.
+Print Assumptions dur_marshal_zero_iff.
+
+(* Every instant whose millisecond rounding lies in years 1..9999, at nanosecond
+   resolution, marshals to text that unmarshals to the same instant rounded
+   (half up) to the millisecond, in UTC. *)
+Theorem instant_roundtrip_ms :
+  forall t, zero_time <= round_ms t < year10000 ->
+            parse_relaxed (format_relaxed t) = Ok (round_ms t).
+Proof. exact instant_roundtrip. Qed.
+Print Assumptions instant_roundtrip_ms.
+
+(* the calendar conversion used by both directions is exact for every day *)
+Theorem calendar_roundtrip :
+  forall z, let '(y, m, d) := civil_of_days z in
+            days_of_civil y m d = z /\ 1 <= m <= 12 /\ 1 <= d <= days_in_month y m.
+Proof. exact civil_roundtrip. Qed.
+Print Assumptions calendar_roundtrip.
